@@ -2,67 +2,10 @@
 C15 — imports merge into the importer; modules are isolated namespaces.
 -/
 import Just.Model.Imports
+import Just.Lemmas.LoaderChain
+import Just.Lemmas.LoaderFuel
 namespace Just.Props.C15
 open Just.Imports
-
-/-- a source's chain ends with its own file, has no repetition and as many entries as its depth + 1 -/
-structure GoodSource (s : Source) : Prop where
-  nodup : s.chain.Nodup
-  last : s.chain.getLast? = some s.file
-  len : s.chain.length = s.depth + 1
-
-theorem pushes_good (cur : Source) (hc : GoodSource cur) : ∀ (items : List Item) (ss : List Source),
-    pushes cur items = .ok ss → ∀ s ∈ ss, GoodSource s ∧ s.file ∉ cur.chain := by
-  intro items
-  induction items with
-  | nil => intro ss h; simp [pushes] at h; subst h; intro s hs; cases hs
-  | cons it rest ih =>
-    intro ss h s hs
-    cases it with
-    | «import» t opt =>
-      cases t with
-      | some t =>
-        simp only [pushes] at h
-        split at h
-        · cases h
-        · rename_i hnin
-          split at h
-          · cases h
-          · rename_i ss' hss'
-            cases h
-            rcases List.mem_cons.mp hs with rfl | hs
-            · refine ⟨⟨?_, by simp, by simp [hc.len]⟩, hnin⟩
-              exact List.nodup_append.mpr ⟨hc.nodup, by simp, by
-                intro a ha b hb; simp at hb; subst hb; intro hab; subst hab; exact hnin ha⟩
-            · exact ih ss' hss' s hs
-      | none =>
-        simp only [pushes] at h
-        split at h
-        · exact ih ss h s hs
-        · cases h
-    | module name t opt =>
-      cases t with
-      | some t =>
-        simp only [pushes] at h
-        split at h
-        · cases h
-        · rename_i hnin
-          split at h
-          · cases h
-          · rename_i ss' hss'
-            cases h
-            rcases List.mem_cons.mp hs with rfl | hs
-            · refine ⟨⟨?_, by simp, by simp [hc.len]⟩, hnin⟩
-              exact List.nodup_append.mpr ⟨hc.nodup, by simp, by
-                intro a ha b hb; simp at hb; subst hb; intro hab; subst hab; exact hnin ha⟩
-            · exact ih ss' hss' s hs
-      | none =>
-        simp only [pushes] at h
-        split at h
-        · exact ih ss h s hs
-        · cases h
-    | recipe n => simp only [pushes] at h; exact ih ss h s hs
-    | «variable» n => simp only [pushes] at h; exact ih ss h s hs
 
 /-- **a cyclic import or module chain is never followed**: every source that is ever loaded has a
 repetition-free chain of files leading to it (so no file is loaded below itself), whatever the
@@ -319,5 +262,14 @@ theorem import_contributes (fs : FS) (depths : List (Nat × Nat)) (root : Nat) (
         intro f hf d hd
         simp only
         exact (dedup_inv _).cover d (List.mem_flatMap.mpr ⟨f, hf, hd⟩)
+
+/-- **The loader terminates on every file graph**, cyclic or not, existing files or dangling edges: with
+fuel above `W (maxItems fs) fs.length` - a bound that depends only on the number of files and the
+largest number of items in one file - the loop of `Compiler::compile` finishes (the model's fuel is
+never exhausted).  Measure: a source whose chain has length L weighs W (N + 1 - L); whatever it pushes
+has a longer repetition-free chain, and there are at most `maxItems` of them. -/
+theorem loader_terminates (fs : FS) (fuel : Nat) (hf : W (maxItems fs) fs.length < fuel) :
+    load fs fuel ≠ .error .fuel :=
+  load_no_fuel fs fuel hf
 
 end Just.Props.C15
